@@ -7,9 +7,6 @@ namespace Plugin
 
 variable {S α : Type}
 
-/-- the result is an error that does not come from a clean `done` -/
-def Hard (res : Except ClientErr α) : Prop := ∃ err, res = .error err ∧ err.hard
-
 theorem Hard.not_ok {res : Except ClientErr α} (h : Hard res) (v : α) : res ≠ .ok v := by
   obtain ⟨err, rfl, _⟩ := h; intro h; cases h
 
